@@ -368,7 +368,15 @@ func (g *Gen) load(st *State, p Val, elem types.Type) Val {
 	if p.Addr != nil {
 		term := g.addrTerm(st, p.Addr)
 		v := Val{T: elem, S: g.define("ld", g.sortOf(elem), term)}
-		g.assume(g.rangeOf(elem, v.S, st))
+		al := g.heapGet(st, "$alloc")
+		if strings.HasPrefix(term, "(select |") {
+			// a value read from a heap variable that has not been written since function entry refers to an object
+			// that existed at entry (not merely "now"): it cannot be one this function has allocated
+			if hv := strings.SplitN(term[len("(select "):], " ", 2)[0]; strings.HasSuffix(hv, "@0|") {
+				al = "|$alloc@0|"
+			}
+		}
+		g.assume(g.rangeOfA(elem, v.S, al))
 		return v
 	}
 	if _, ok := elem.Underlying().(*types.Struct); ok {
